@@ -205,4 +205,35 @@ Proof.
   unfold fname. rewrite Fb, <- (HN f); auto. rewrite E; auto.
 Qed.
 
+(* names carry the age, Date / DateAndTime: newer file => later-or-equal suffix (w.r.t. any order [dle]
+   that strftime respects), equal suffix => smaller index *)
+Theorem names_order_date_thm : forall (dle : comp -> comp -> Prop) ops,
+  (forall t1 t2, t1 <= t2 -> dle (suffix strf c t1) (suffix strf c t2)) ->
+  mono start ops ->
+  let sN := run0 strf rtm c wm rm start d0 ops in
+  StronglySorted (fun a b => dle (fdt b) (fdt a)) (tl (dq sN)) /\ ordp (dq sN).
+Proof.
+  intros dle ops Hmono HM. cbn zeta.
+  assert (OK0 : wm = false -> c_limit c <> 0 -> ok_size c (fs_content (live_path c) d0)).
+  { intros W _. rewrite (Hempty W). apply ok_size_nil. }
+  destruct (construct_clean_full strf rtm c wm rm start d0 Hclean OK0) as [HF0 DQ0].
+  pose proof (F_inv c d0 _ HF0) as HI0.
+  assert (HM0 : mono 0 ops).
+  { destruct ops as [|[id ts wr cnt|? ? ?] r]; cbn [mono] in *; auto. destruct HM as [_ [A B]]. split; [lia | auto]. }
+  destruct (name_thm ops HM0) as [_ HN]. cbn zeta in HN.
+  pose proof (run_inv_mono ops start s0 HI0 HM) as HI. fold (run0 strf rtm c wm rm start d0 ops) in HI.
+  assert (S0 : open_sorted s0) by (unfold open_sorted; rewrite DQ0; repeat constructor).
+  assert (O0 : ots s0 <= start) by (rewrite construct_state; cbn [ots]; lia).
+  pose proof (run_open_sorted strf rtm c strf_nonempty ops start s0 HI0 S0 O0 HM) as HS.
+  fold (run0 strf rtm c wm rm start d0 ops) in HS. unfold open_sorted in HS.
+  split; [|apply (I_ord c _ HI)].
+  destruct (I_head c _ HI) as [rest [E _]]. rewrite E in *. cbn [tl] in *.
+  inversion HS as [|? ? HS' _]; subst. clear HS E.
+  induction HS' as [|a l S IH F]; [constructor|]. constructor.
+  - apply IH. intros f Hf. apply HN; right; auto.
+  - rewrite Forall_forall in *. intros y Hy.
+    destruct (HN a (or_introl eq_refl)) as [Ea _]. destruct (HN y (or_intror Hy)) as [Ey _].
+    rewrite Ea, Ey. apply Hmono. apply F; auto.
+Qed.
+
 End C15name.
